@@ -418,6 +418,106 @@ func randomValid(r *common.Rand) string {
 	}
 }
 
+// constructedCase: ground truth by construction, not by re-splitting the string: the reference is
+// assembled from parts whose validity is known (valid registry from a fixed list, repository built
+// from the documented rule or broken in a known way, tag / dropped part / digest), so the expected
+// verdict and parts do not depend on any parser-like control flow in the oracle.
+func constructedCase(r *common.Rand) {
+	reg := common.Pick(r, []string{"localhost", "localhost:5000", "docker.io", "registry.example.com", "127.0.0.1:443", "a-b.c_d", "UP.example"})
+	alnum := func() string {
+		n := 1 + r.Intn(3)
+		var sb strings.Builder
+		for i := 0; i < n; i++ {
+			sb.WriteByte("abcxyz0189"[r.Intn(10)])
+		}
+		return sb.String()
+	}
+	comp := func() string {
+		s := alnum()
+		for k := r.Intn(3); k > 0; k-- {
+			s += common.Pick(r, []string{".", "_", "__", "-", "--", "-----"}) + alnum()
+		}
+		return s
+	}
+	repo := comp()
+	for k := r.Intn(3); k > 0; k-- {
+		repo += "/" + comp()
+	}
+	okRepo := true
+	if r.Chance(1, 4) { // break the repository in a known way
+		okRepo = false
+		switch r.Intn(7) {
+		case 0:
+			repo = strings.ToUpper(repo[:1]) + repo[1:] + "X"
+		case 1:
+			repo += common.Pick(r, []string{".", "_", "-", "/"})
+		case 2:
+			repo = common.Pick(r, []string{".", "_", "-", "/"}) + repo
+		case 3:
+			repo += "/" + alnum() + common.Pick(r, []string{"..", "___", "._", "_.", "-.", "_-", "//"}) + alnum()
+		case 4:
+			repo += common.Pick(r, []string{" ", "%", "?", "#", "+", "\\", "\x00", "\xc3\xa9"}) + alnum()
+		case 5:
+			repo = ""
+		case 6:
+			repo += "/" + alnum() + "___" + alnum()
+		}
+	}
+	tagc := "abzAZ09_.-"
+	tag := string("aZ0_"[r.Intn(4)])
+	for k := r.Intn(12); k > 0; k-- {
+		tag += string(tagc[r.Intn(len(tagc))])
+	}
+	okT := true
+	if r.Chance(1, 4) {
+		okT = false
+		tag = common.Pick(r, []string{"." + tag, "-" + tag, tag + "!", tag + " ", strings.Repeat("t", 129), tag + "\xc3\xa9", tag + "+"})
+	}
+	dg := randDigest(r)
+	okD := okDigest(dg) // by the independent digest rule
+	var s string
+	var acc bool
+	want := registry.Reference{Registry: reg, Repository: repo}
+	switch r.Intn(4) {
+	case 0:
+		s, acc = reg+"/"+repo, okRepo
+	case 1:
+		s, acc = reg+"/"+repo+":"+tag, okRepo && okT
+		want.Reference = tag
+	case 2:
+		s, acc = reg+"/"+repo+"@"+dg, okRepo && okD
+		want.Reference = dg
+	default:
+		junk := tag
+		if r.Bool() {
+			junk = strings.ReplaceAll(randJunk(r), "@", "")
+		}
+		s, acc = reg+"/"+repo+":"+junk+"@"+dg, okRepo && okD
+		want.Reference = dg
+	}
+	// a broken repository that contains ':' or '@' shifts the split: not a constructed ground truth
+	if strings.ContainsAny(repo, ":@") {
+		return
+	}
+	id := run.NewID()
+	ref, err := registry.ParseReference(s)
+	obs := errObs(id, "ParseReference", s, err, map[string]string{"op": "P", "input": s})
+	if err == nil {
+		obs = showRef(ref) + " FMT " + common.Hex(ref.String())
+	}
+	run.Case(id, "P "+common.Hex(s), obs)
+	run.Count("constructed")
+	if acc {
+		run.Count("constructed_accept")
+	}
+	if acc != (err == nil) {
+		run.OracleFail(id, "constructed-accept", fmt.Sprintf("ParseReference(%q): accepted=%v, but it was assembled from registry %q (valid), repository %q (valid=%v), reference part (valid=%v)", s, err == nil, reg, repo, okRepo, acc || !okRepo),
+			map[string]string{"op": "P", "input": s})
+	} else if acc && ref != want {
+		run.OracleFail(id, "constructed-parts", fmt.Sprintf("ParseReference(%q) = %+v, assembled from %+v", s, ref, want), map[string]string{"op": "P", "input": s})
+	}
+}
+
 // randDigest: a digest with random mixed hex (boundary characters '0' '9' 'a' 'f' over-represented),
 // valid with probability ~1/2, otherwise with one realistic defect.
 func randDigest(r *common.Rand) string {
